@@ -22,7 +22,7 @@ ANCHORS = ["raggedarray/base.py::RaggedBase.ravel", "raggedarray/base.py::Ragged
            "raggedarray/__init__.py::RaggedArray.__array_ufunc__", "raggedarray/__init__.py::RaggedArray.__array_function__", "raggedarray/__init__.py::RaggedArray.__iter__",
            "raggedarray/indexablearray.py::IndexableArray.__setitem__", "raggedarray/base.py::RaggedBase.size"]
 FLOOR_TAGS = ["class:A", "class:B", "plan:everything", "plan:random", "inserted-read-on-lazy", "inserted:meta", "inserted:repr", "inserted:tolist", "inserted:sel", "inserted:sum0",
-              "inserted:ell", "inserted:row", "inserted:maskidx", "class:buffer", "class:runlength", "class:table", "variant:2d", "variant:ragged", "variant:1d", "layout:contiguous", "layout:strided", "layout:matrix-column", "layout:reversed"]
+              "inserted:ell", "inserted:row", "inserted:maskidx", "class:buffer", "class:runlength", "class:table", "variant:2d", "variant:ragged", "variant:1d", "layout:contiguous", "layout:strided", "layout:matrix-column", "layout:reversed", "layout:misaligned", "layout:byteswapped", "layout:sliced-middle"]
 FLOOR_MONITORS = ["c10:pair", "purity-tap", "global-state", "kept-results"]
 N_RANDOM = {"quick": 3000, "thorough": 100000}
 GLOBAL_STATE_MONITOR = True     # reads must not leak into numpy's print options / error state either
@@ -68,7 +68,7 @@ def make_plans(rng, steps, n_random=2):
     return plans
 
 
-LAYOUTS = ["contiguous", "strided", "matrix-column", "reversed", "readonly-base"]
+LAYOUTS = ["contiguous", "strided", "matrix-column", "reversed", "misaligned", "byteswapped", "sliced-middle", "readonly-base"]
 BUF_OBS = ["tolist", "ravel", "sum1", "repr", "str", "meta", "row", "elem", "sel", "iter", "max1", "sum0", "maskidx", "cumsum", "sort", "astype", "ell", "nonzero", "add1"]
 
 
@@ -89,6 +89,19 @@ def make_buffer(layout, vals):
     if layout == "reversed":
         base = np.array(vals[::-1], dtype=np.int64)
         return base[::-1], base
+    if layout == "misaligned":
+        # 64-bit numbers that start one byte into the caller's memory block (a record read from a file, a packed struct): not aligned, still writable
+        raw = bytearray(8 * n + 9)
+        view = np.frombuffer(raw, dtype=np.int64, count=n, offset=1)
+        view[...] = vals
+        return view, view
+    if layout == "byteswapped":
+        base = np.array(vals, dtype=">i8")
+        return base, base
+    if layout == "sliced-middle":
+        base = np.full(n + 7, -7, dtype=np.int64)
+        base[3:3 + n] = vals
+        return base[3:3 + n], base
     raise ValueError(layout)
 
 
